@@ -114,7 +114,7 @@ class ScenarioCheck:
         fails = (self.spec(impl, r["scn"]) if self.spec_scn else self.spec(impl)) if self.spec else []
         return (mism, fails, crash[0] if crash else None)
 
-    def run(self, tier, seed, replay):
+    def run(self, tier, seed, replay, write=True):
         t0 = time.time()
         prop = self.prop
         wd = vlib.workdir(prop)
@@ -261,7 +261,9 @@ class ScenarioCheck:
             corpus=len(corpus), samples=samples)
         if hasattr(self, "extra_cov"):
             cov.update(self.extra_cov(results))
-        vlib.write_evidence(prop, tier, seed, cov, self.assumptions, time.time() - t0, violations)
+        self.last = (cov, violations, time.time() - t0)
+        if write:
+            vlib.write_evidence(prop, tier, seed, cov, self.assumptions, time.time() - t0, violations)
         try:
             os.rmdir(wd)
         except OSError:
